@@ -54,7 +54,10 @@ def history(draw, max_steps=30):
         feats = [draw(st.one_of(st.integers(0, 3).map(float), st.floats(0, 10, allow_nan=False),
                                 st.just(float("inf")))) for _ in range(nsteps)]
         trunc = {"size": draw(st.one_of(st.integers(1, 3), st.integers(1, nsteps + 2))), "feats": feats, "larger": draw(st.booleans())}
-    return {"cmp": cmpk, "eps": eps, "ops": ops, "perm": list(perm), "trunc": trunc}
+    return {"cmp": cmpk, "eps": eps, "ops": ops, "perm": list(perm), "trunc": trunc,
+            # design vectors: all different, or all equal (repeated / noisy evaluations of one design: members must be
+            # told apart by identity, never by design-point equality)
+            "same_vector": draw(st.booleans())}
 
 
 def _mk_cmp(case):
@@ -100,7 +103,7 @@ def check_history(case):
             nt = True
             classes.add("dominated-by-late-member")
         with guard("archive"):
-            ind = Individual([float(step)])
+            ind = Individual([0.5] if case.get("same_vector") else [float(step)])
             ind.costs_signed = list(v)
             ret = arch.add(ind)
         offered.append(tv)
